@@ -478,9 +478,22 @@ Proof.
   - exact WB.
 Qed.
 
+Lemma mark_wf st p m ls e : wf st -> wf (mark st p m ls e).
+Proof.
+  intros W. unfold mark. destruct (ps_handle (getp p st)) as [hd|] eqn:H; [|exact W].
+  destruct (exec_effect (ps_heap (getp p st)) (h_objs hd) (EExpire m ls e) 0%Z) as [h'|] eqn:E; [|exact W].
+  destruct (exec_effect_wf _ _ _ _ _ (wf_heaps _ W p) (fun o d I => wf_handles _ W p hd o d H I) E) as (W1 & A1).
+  unfold setp. apply wf_replace; try exact W; cbn [ps_heap ps_handle].
+  - exact W1.
+  - exact A1.
+  - intros hd0 o d E0 I. apply A1. rewrite H in E0. injection E0 as <-. exact (wf_handles _ W p hd o d H I).
+  - apply W.
+  - auto.
+Qed.
+
 Theorem step_wf st o : wf st -> wf (step c1 c2 omit compile vmstep st o).
 Proof.
-  intros W. destruct o; cbn [step]; [apply load_wf|apply unload_wf|apply line_wf|apply gc_wf]; exact W.
+  intros W. destruct o; cbn [step]; [apply load_wf|apply unload_wf|apply line_wf|apply gc_wf|apply mark_wf]; exact W.
 Qed.
 
 Theorem reachable_wf ops : forall st, wf st -> wf (run_from c1 c2 omit compile vmstep st ops).
